@@ -574,8 +574,73 @@ fn check_sk(c: &Case, ctx: &mut CaseCtx) -> Result<(), Failure> {
     Ok(())
 }
 
+// ------------------------------------------------------------------------------------------------
+// PST13: the parameter/trim oracle of C15 on generated (num_vars, max_degree, seed), plus key interop
+// ------------------------------------------------------------------------------------------------
+
+fn pst_case() -> impl Strategy<Value = super::c15::GridCase> {
+    (1usize..=5, 1usize..=5, 0u64..1000).prop_map(|(nv, d, seed)| super::c15::GridCase { nv, d, seed })
+}
+
+fn check_pst(c: &super::c15::GridCase, ctx: &mut CaseCtx) -> Result<(), Failure> {
+    use ark_poly::{multivariate::Term, DenseMVPolynomial, Polynomial};
+    let mut inner = CaseCtx::new_like(ctx);
+    let r = super::c15::check_grid(c, &mut inner);
+    ctx.absorb(inner);
+    if let Err(f) = r {
+        return ctx.fail(f.sig.replace("C15:", "C09:"), f.msg);
+    }
+    let (nv, d) = (c.nv, c.d);
+    let Out::Ok(pp) = guard(|| Pst13PC::setup(d, Some(nv), &mut rng(0xb0b + c.seed))) else { return Ok(()) };
+    let mut g = rng(c.seed ^ 0x9e37);
+    let (s1, s2) = (1 + (g.next_u64() as usize) % d, 1 + (g.next_u64() as usize) % d);
+    ctx.label_if(s1 != s2, "interop_between_different_supported_degrees");
+    let (Out::Ok((ck1, vk1)), Out::Ok((_ck2, vk2))) = (guard(|| Pst13PC::trim(&pp, s1, 0, None)), guard(|| Pst13PC::trim(&pp, s2, 0, None))) else {
+        return ctx.fail(sig(P, "pst13", "trim", "in_range_refused"), format!("trim(supported {s1} / {s2}) refused under max degree {d}"));
+    };
+    // truthful degree reports
+    ctx.check(
+        ck1.supported_degree() == s1 && ck1.max_degree() == d && vk1.supported_degree() == s1 && vk1.max_degree() == d && pp.max_degree() == d,
+        sig(P, "pst13", "trim", "degree_report"),
+        || format!("reports: ck ({}, {}), vk ({}, {}), requested ({s1}, {d})", ck1.supported_degree(), ck1.max_degree(), vk1.supported_degree(), vk1.max_degree()),
+    )?;
+    // a polynomial of total degree exactly s1 (all monomials of degree <= s1 with random coefficients)
+    let terms: Vec<(Fr, _)> = all_exponents(nv, s1).iter().map(|e| (Fr::rand(&mut g) + Fr::from(1u64), term_of(e))).collect();
+    let top = terms.iter().map(|(_, t)| t.degree()).max().unwrap_or(0);
+    let poly = MVPoly::from_coefficients_vec(nv, terms);
+    let hiding = if c.seed % 2 == 0 { Some(1 + (c.seed as usize / 2) % s1) } else { None };
+    ctx.label_if(hiding.is_some(), "has_hiding");
+    let lp = LabeledPolynomial::new("p".into(), poly.clone(), None, hiding);
+    let Out::Ok((cm, st)) = guard(|| Pst13PC::commit(&ck1, [&lp], Some(&mut rng(c.seed ^ 3)))) else {
+        return ctx.fail(sig(P, "pst13", "commit", "supported_degree_refused"), format!("commit of a polynomial of total degree {top} refused under supported degree {s1}"));
+    };
+    // one degree more is refused
+    if s1 < d {
+        let mut e = vec![0usize; nv];
+        e[(c.seed as usize) % nv] = s1 + 1;
+        let big = MVPoly::from_coefficients_vec(nv, vec![(Fr::from(3u64), term_of(&e))]);
+        let lb = LabeledPolynomial::new("b".into(), big, None, None);
+        let r = guard(|| Pst13PC::commit(&ck1, [&lb], None));
+        ctx.check(!matches!(r, Out::Ok(_)), sig(P, "pst13", "commit", "above_supported_accepted"), || format!("commit accepted total degree {} under supported degree {s1}", s1 + 1))?;
+    }
+    let z: Vec<Fr> = (0..nv).map(|_| Fr::rand(&mut g)).collect();
+    let v = poly.evaluate(&z);
+    let mut sp = sponge::<Fr>(0);
+    let Out::Ok(pf) = guard(|| Pst13PC::open(&ck1, [&lp], &cm, &z, &mut sp, &st, Some(&mut rng(c.seed ^ 5)))) else {
+        return ctx.fail(sig(P, "pst13", "open", "refused"), "open refused");
+    };
+    // the verifier key of another trim of the same parameters accepts (verifier keys do not depend on the supported degree)
+    let ok = guard(|| Pst13PC::check(&vk2, &cm, &z, [v], &pf, &mut sponge::<Fr>(0), None));
+    ctx.check(matches!(ok, Out::Ok(true)), sig(P, "pst13", "interop", "rejected"), || format!("proof under ck(supported {s1}) against vk(supported {s2}) -> {}", ok.describe()))?;
+    let bad = guard(|| Pst13PC::check(&vk2, &cm, &z, [v + Fr::from(1u64)], &pf, &mut sponge::<Fr>(0), None));
+    ctx.check(!matches!(bad, Out::Ok(true)), sig(P, "pst13", "interop", "false_value_accepted"), || "false value accepted across keys".into())?;
+    ctx.nontrivial = nv >= 2 && d >= 2;
+    Ok(())
+}
+
 pub fn spec() -> PropertySpec {
     let mut units: Vec<Box<dyn Unit>> = Vec::new();
+    units.push(PropUnit::new("C09:pst13:srs+trim", 60, 400, 4, |_| pst_case().boxed(), check_pst));
     units.push(PropUnit::new("C09:marlin:srs+trim", 240, 1200, 4, |_| case().boxed(), check_marlin));
     units.push(PropUnit::new("C09:sonic:srs+trim", 240, 1200, 4, |_| case().boxed(), check_sonic));
     units.push(PropUnit::new("C09:ipa:generators+trim", 120, 600, 2, |_| case().boxed(), check_ipa));
@@ -585,7 +650,7 @@ pub fn spec() -> PropertySpec {
     units.push(PropUnit::new("C09:skzg:srs", 120, 600, 2, |_| case().boxed(), check_sk));
     PropertySpec {
         id: "C09",
-        rule: "Generated key requests (max degree from {1..64}, supported <= max, enforced bound lists unsorted/duplicated/empty/None, hiding bounds, 1-10 variables, setup seeds). KZG SRS (Marlin, Sonic, streaming): every G1 power and gamma power is beta times its predecessor and every negative G2 power satisfies e(G_i, beta^-i H) = e(G_0, H) (random-combination pairing checks with per-index localisation), counts are max+1 / max+2, generators are not the identity, prepared elements pair like the plain ones. trim: committer/verifier key elements are exactly the SRS prefix ..=supported, gamma prefix ..=hiding+1, shifted window from max - max(B), one shift element per sorted de-duplicated bound (G_{max-b} for Marlin, beta^-(max-b) H for Sonic, shifted gamma windows for Sonic); degree reports are truthful (degree = supported commits, supported+1 is refused); two keys trimmed from one SRS interoperate; supported > max, hiding > max+1 and bounds beyond max/supported are refused. IPA / Hyrax: published generators equal the harness's own hash-to-curve derivation from the protocol name, are valid, non-identity, pairwise distinct, independent of the setup RNG; trim returns a prefix; odd/None variable counts refused. Code-based: Ligero parameters are a deterministic function of their inputs, Brakedown matrices have the declared shapes and exactly d non-zero entries per row, encode returns a word of the declared length, trim returns the parameters unchanged. Multilinear PST: every hypercube table sums to the generator, G1 and G2 tables carry the same scalars, and each variable's slice ratio matches the published g_mask (so every entry is eq(t,x) for one trapdoor); trimmed keys are the trailing tables. Non-trivial: supported < max with >= 2 distinct bounds, or an unsorted/duplicated bound list (other schemes: a key larger than the smallest).",
+        rule: "Generated key requests (max degree from {1..64}, supported <= max, enforced bound lists unsorted/duplicated/empty/None, hiding bounds, 1-10 variables, setup seeds). KZG SRS (Marlin, Sonic, streaming): every G1 power and gamma power is beta times its predecessor and every negative G2 power satisfies e(G_i, beta^-i H) = e(G_0, H) (random-combination pairing checks with per-index localisation), counts are max+1 / max+2, generators are not the identity, prepared elements pair like the plain ones. trim: committer/verifier key elements are exactly the SRS prefix ..=supported, gamma prefix ..=hiding+1, shifted window from max - max(B), one shift element per sorted de-duplicated bound (G_{max-b} for Marlin, beta^-(max-b) H for Sonic, shifted gamma windows for Sonic); degree reports are truthful (degree = supported commits, supported+1 is refused); two keys trimmed from one SRS interoperate; supported > max, hiding > max+1 and bounds beyond max/supported are refused. IPA / Hyrax: published generators equal the harness's own hash-to-curve derivation from the protocol name, are valid, non-identity, pairwise distinct, independent of the setup RNG; trim returns a prefix; odd/None variable counts refused. Code-based: Ligero parameters are a deterministic function of their inputs, Brakedown matrices have the declared shapes and exactly d non-zero entries per row, encode returns a word of the declared length, trim returns the parameters unchanged. Multilinear PST: every hypercube table sums to the generator, G1 and G2 tables carry the same scalars, and each variable's slice ratio matches the published g_mask (so every entry is eq(t,x) for one trapdoor); trimmed keys are the trailing tables. PST13: C15's parameter oracle (one element per monomial of total degree <= D, monomial and gamma chains through pairings, trim keeps exactly the monomials up to the supported degree with truthful key fields, trim beyond max refused) on generated (num_vars, max_degree, setup seed), truthful degree reports, a polynomial with every monomial of total degree <= supported commits and one degree more is refused, and a proof made under the committer key of one trim verifies under the verifier key of another trim of the same parameters (and not for a false value). Non-trivial: supported < max with >= 2 distinct bounds, or an unsorted/duplicated bound list (other schemes: a key larger than the smallest).",
         assumptions: vec![
             "pairing identities show every power belongs to one trapdoor, not that the trapdoor is random or discarded",
             "batched pairing checks use 128-bit random coefficients derived from the case seed",
